@@ -4672,6 +4672,12 @@ tsk_treeseq_genetic_relatedness_weighted(const tsk_treeseq_t *self,
         ret = tsk_trace_error(TSK_ERR_INSUFFICIENT_WEIGHTS);
         goto out;
     }
+    /* The summary functions index the weight columns (and the column of ones that
+     * is appended below, id num_weights) by these ids */
+    ret = check_set_indexes(num_weights + 1, 2 * num_index_tuples, index_tuples);
+    if (ret != 0) {
+        goto out;
+    }
 
     // Add a column of ones to W
     for (j = 0; j < num_samples; j++) {
